@@ -125,6 +125,8 @@ class FieldWrapper(Wrapper):
         self._help: str | None = None
         self._metavar: str | None = None
         self._default: Any | list[Any] | None = None
+        # The result of calling the default factory of the field (called at most once).
+        self._default_factory_result: Any = dataclasses.MISSING
         self._dest: str | None = None
         # the argparse-related options:
         self._arg_options: dict[str, Any] = {}
@@ -719,10 +721,14 @@ class FieldWrapper(Wrapper):
         if it has a default value
         """
 
+        # Whether `default` is a single value (for one destination), as opposed to a value that
+        # was set from the outside or a list with one value per destination.
+        single_value = True
         if self._default is not None:
             # If a default value was set manually from the outside (e.g. from the DataclassWrapper)
             # then use that value.
             default = self._default
+            single_value = False
         elif self.is_subgroup:
             default = self.subgroup_default
         elif any(
@@ -747,6 +753,7 @@ class FieldWrapper(Wrapper):
                 default = defaults[0]
             else:
                 default = defaults
+                single_value = False
         # Try to get the default from the field, if possible.
         elif self.field.default is not dataclasses.MISSING:
             default = self.field.default
@@ -757,9 +764,9 @@ class FieldWrapper(Wrapper):
             # called multiple times. We need to set a sentinel value as the initial value of the
             # self._default attribute, so that we can correctly check whether we've already called
             # the default_factory before.
-            if self._default is None:
-                self._default = self.field.default_factory()
-            default = self._default
+            if self._default_factory_result is dataclasses.MISSING:
+                self._default_factory_result = self.field.default_factory()
+            default = self._default_factory_result
         # field doesn't have a default value set.
         elif self.action == "store_true":
             default = False
@@ -777,7 +784,10 @@ class FieldWrapper(Wrapper):
             assert n_destinations >= 1
             # BUG: This second part (the `or` part) is weird. Probably only applies when using
             # Lists of lists with the Reuse option, which is most likely not even supported..
-            if utils.is_tuple_or_list(self.field.type) and len(default) != n_destinations:
+            if single_value:
+                # Every destination gets (the same) default value.
+                default = [default] * n_destinations
+            elif utils.is_tuple_or_list(self.field.type) and len(default) != n_destinations:
                 # The field is of a list type field,
                 default = [default] * n_destinations
             elif not isinstance(default, list):
